@@ -32,6 +32,18 @@ def compile_pair(stmts, explicit_ctx):
     return env["prog"], nenv["prog"], src_o, src_n
 
 
+FVAL = 0.75
+
+
+def _num(w):
+    """Plain number held by the float-initialised variable (a fixed-point secret or still a Python number)."""
+    if isinstance(w, H.fixedpoint.LinCombFxp):
+        return w.lc.value / (1 << H.fixedpoint.resolution)
+    if isinstance(w, H.rt.LinComb):
+        return float(w.value)
+    return float(w)
+
+
 class TwinSkip(Exception):
     pass
 
@@ -102,17 +114,18 @@ def run_one(fo, fn, vec, p):
     H.reset(bitlength=BITLEN)
     rt, B = H.rt, H.boolean
     X, Y, Bv, N = rt.PrivVal(x), rt.PrivVal(y), B.PrivValBool(b), rt.PrivVal(n)
+    Fv = H.fixedpoint.PrivValFxp(FVAL)
     nv0, nc0 = len(H.R.vars), len(H.R.cons)
     try:
-        want = fn(x, y, bool(b), n)
+        want = fn(x, y, bool(b), n, FVAL)
     except Exception as ex:  # noqa: BLE001
         return {"twin_error": repr(ex)}
     out = {"want": want}
     try:
-        rx, ry, ctx, rl = fo(X, Y, Bv, N)
-        out["got"] = (H.plain(rx), H.plain(ry), tuple(H.plain(rl)))
+        rx, ry, ctx, rl, rk, rw = fo(X, Y, Bv, N, Fv)
+        out["got"] = (H.plain(rx), H.plain(ry), tuple(H.plain(rl)), H.plain(rk), _num(rw))
         out["stack"] = len(ctx.stack)
-        out["mism"] = H.value_wire_mismatches([rx, ry, rl])
+        out["mism"] = H.value_wire_mismatches([rx, ry, rl, rk, rw])
     except Exception as ex:  # noqa: BLE001
         out["exc"] = "%s: %s" % (type(ex).__name__, str(ex)[:100])
         out["exc_type"] = type(ex).__name__
@@ -169,9 +182,9 @@ def _task(t):
                            {"exc": r["exc_type"]})
                     continue
                 outcomes.add(r["got"])
-                r["want"] = (r["want"][0], r["want"][1], tuple(r["want"][2]))
+                r["want"] = (r["want"][0], r["want"][1], tuple(r["want"][2]), r["want"][3], float(r["want"][4]))
                 if tuple(r["got"]) != tuple(r["want"]):
-                    report("wrong-result", vec, "oblivious program ends with (x,y,l)=%s, native twin with %s" % (r["got"], r["want"]))
+                    report("wrong-result", vec, "oblivious program ends with (x,y,l,k,w)=%s, native twin with %s" % (r["got"], r["want"]))
                 if r["unsat"]:
                     report("unsat", vec, "constraints %s not satisfied by the recorded witness" % r["unsat"][:3])
                 if r["mism"]:
@@ -243,7 +256,7 @@ def run(ctx):
     ctx.cov["distinct_outcomes"] = nout
     ctx.cov["traces_validated_against_impl"] = agg["executions"]
     ctx.cov["exhaustive"] = True
-    ctx.cov["rule"] = ("program = statement list from the grammar assign | if/elif/else | while+breakif | for _range(secret "
+    ctx.cov["rule"] = ("variables: two integer secrets, a list of two, one starting as the plain int 5 and one as the plain float 1.5 (assigned integer / fixed-point secrets inside blocks); program = statement list from the grammar assign | if/elif/else | while+breakif | for _range(secret "
                        "stop, public max) (conditions x<y, x==1, b, ~b, b&(x<=y); loop maxima 2,3; nesting 1 quick / 2 "
                        "thorough), emitted with explicit ctx= and with local-variable context lookup; inputs = all "
                        "(x,y) in {0..3}^2 x b in {0,1} x stop in 0..max; transitions = constraints emitted; states = "
@@ -260,7 +273,7 @@ def replay(case):
     stmts = _fix(stmts)
     fo, fn, so, sn = compile_pair(stmts, case["explicit"])
     r = run_one(fo, fn, tuple(case["vec"]), case["p"])
-    r["want"] = (r["want"][0], r["want"][1], tuple(r["want"][2]))
+    r["want"] = (r["want"][0], r["want"][1], tuple(r["want"][2]), r["want"][3], float(r["want"][4]))
     bad = ("exc" in r) or tuple(r.get("got", ())) != tuple(r["want"]) or r["unsat"]
     r.pop("trace", None)
     return {"oblivious": so, "native": sn, "inputs": case["vec"], "result": r, "violations": [r] if bad else []}
